@@ -79,7 +79,7 @@ func getNewHistoricalFileName(filename string) string {
 
 // getHistoricalFilePaths returns paths to all versions of the current base file.
 // "current" must be a valid path. Historical versions are returned from newest to oldest,
-// starting with the current version.
+// starting with the current version (if it exists).
 func getHistoricalFilePaths(current string, storage Storage) ([]string, error) {
 	historyDir := getHistoryDirName(current)
 	history, err := storage.ReadDir(historyDir)
@@ -88,8 +88,16 @@ func getHistoricalFilePaths(current string, storage Storage) ([]string, error) {
 	if err != nil && !os.IsNotExist(err) {
 		return nil, err
 	}
-	filenames := make([]string, 1, len(history)+1)
-	filenames[0] = current
+	filenames := make([]string, 0, len(history)+1)
+	// The current file is absent after the current key has been destroyed.
+	// Historical versions are still there and have to be returned.
+	exists, err := storage.Exists(current)
+	if err != nil {
+		return nil, err
+	}
+	if exists {
+		filenames = append(filenames, current)
+	}
 	// ReadDir() returns directory content in lexicographically sorted order. History files
 	// have current time as a suffix so we need to reverse the order to move through them
 	// from newest to oldest.
